@@ -161,11 +161,12 @@ def histories(draw, tier):
     n = sc["n"]
     alt = gen.rescale_case({"am": draw(gen.net_params(n, sc["nh"], sc.get("na"), [0.5, 2.0, 8.0]))}, 60.0)["am"]
     ops = []
-    for _ in range(draw(st.integers(1, 5))):
+    m_fixed = draw(st.integers(1, 3))
+    for _ in range(draw(st.integers(1, 8))):
         kind = draw(st.sampled_from(["fresh", "start", "continue", "continue", "reparam"]))
         op = {"op": kind}
         if kind == "fresh":
-            op.update(k=draw(st.integers(0, 3)), m=draw(st.integers(1, 3)))
+            op.update(k=draw(st.integers(0, 3)), m=m_fixed if draw(st.booleans()) else draw(st.integers(1, 3)))
         elif kind == "start":
             op.update(k=draw(st.integers(0, 3)), idx=draw(gen.index_list(n, 1, 3)), overwrite=draw(st.booleans()), one_d=draw(st.booleans()),
                       dtype=draw(st.sampled_from(["float64", "float64", "float32"])))
@@ -184,6 +185,7 @@ def check_history(case):
     chain = None
     mon = Monitor(case["us"])
     real = torch.bernoulli
+    handed_out = []       # (tensor returned by sample(), its value at that time, was it requested with overwrite=True later?)
     entered = []          # (number of monitored draws made before gibbs_steps was entered, clone of its start state)
     orig_gs = state.rbm_am.gibbs_steps
 
@@ -279,6 +281,14 @@ def check_history(case):
                 else:
                     require(torch.equal(given, before), "history:start-mutated", "the caller's start state was modified although overwrite=False")
                     require(k == 0 or given.data_ptr() != res.data_ptr(), "history:alias", "result aliases the caller's start state although overwrite=False")
+            # results of EARLIER calls (still held by the caller) must not change because of this call - unless the caller itself passed
+            # them back with overwrite=True
+            for old, val in handed_out:
+                if given is not None and overwrite and old.data_ptr() == given.data_ptr():
+                    continue
+                require(torch.equal(old, val), "history:earlier-result-changed", "a tensor returned by an earlier sample() call changed during a later call")
+            handed_out[:] = [(o, v) for o, v in handed_out if not (given is not None and overwrite and o.data_ptr() == given.data_ptr())]
+            handed_out.append((res, res.detach().clone()))
             chain = res
     finally:
         torch.bernoulli = real
